@@ -12,7 +12,8 @@ class C07(Spec):
     variant = "plain"
     shard = 1
     timeout = 900
-    rule = ("live single-worker listener: connection A asks for 8-48 MB and does not read for 600-1500 ms (the kernel buffers "
+    env = {"PV_CASE_TIMEOUT": "40"}
+    rule = ("live single-worker listener: connection A asks for 8-48 MB and does not read for 900-2400 ms after the kernel first refused bytes for it (the kernel buffers "
             "fill and the socket really returns EAGAIN); connection B of the same worker sends a request after a third of "
             "the stall; measured: B is answered within a third of the stall, the number of send calls made on A while it "
             "is stalled (counted through the PISTACHE_VERIF hook) stays below 1000, A finally receives every byte in order "
@@ -23,7 +24,7 @@ class C07(Spec):
 
     def gen(self, rng, tier):
         cases = []
-        combos = [(900, 24), (600, 8), (1200, 48)] if tier == "quick" else [(s, m) for s in (600, 900, 1500, 2400) for m in (8, 16, 32, 48, 64)]
+        combos = [(900, 24), (900, 8), (1500, 48)] if tier == "quick" else [(s, m) for s in (900, 1500, 2400) for m in (8, 16, 32, 48, 64)]
         for stall, mb in combos:
             cases.append("S %d %d" % (stall, mb << 20))
         for th in "LF":
@@ -60,7 +61,7 @@ def replay(obj):
     s = C07()
     case = obj["case"]
     exe = pv.build_harness(s.harness, s.variant)
-    i, _ = pv.run_parallel([exe], [case])
+    i, _ = pv.run_parallel([exe], [case], env=s.env)
     print("case :", case); print("impl :", i[0])
     w = s.oracle(case, i[0])
     print("oracle:", w or "other connection served, no busy wait, everything delivered")
